@@ -355,38 +355,37 @@ func GetAcsUrlAndBindingForResponse(
 	acs []md.IndexedEndpointType,
 	requestProtocolBinding string,
 ) (string, string) {
-	acsUrl := ""
-	protocolBinding := ""
-
+	// first endpoint with the requested binding
 	for _, acs := range acs {
 		if acs.Binding == requestProtocolBinding {
-			acsUrl = acs.Location
-			protocolBinding = acs.Binding
-			break
+			return acs.Location, acs.Binding
 		}
 	}
-	if acsUrl == "" {
-		isDefaultFound := false
-		for _, acs := range acs {
-			if acs.IsDefault == "true" {
-				isDefaultFound = true
-				acsUrl = acs.Location
-				protocolBinding = acs.Binding
-				break
-			}
+	// otherwise the first endpoint flagged as default (xs:boolean: "true" or "1")
+	for _, acs := range acs {
+		if isXSBooleanTrue(acs.IsDefault) {
+			return acs.Location, acs.Binding
 		}
-		if !isDefaultFound {
-			index := 0
-			for _, acs := range acs {
-				i, _ := strconv.Atoi(acs.Index)
-				if index == 0 || i < index {
-					acsUrl = acs.Location
-					protocolBinding = acs.Binding
-					index = i
-				}
-			}
+	}
+	// otherwise the endpoint with the lowest index
+	acsUrl := ""
+	protocolBinding := ""
+	found := false
+	index := 0
+	for _, acs := range acs {
+		i, _ := strconv.Atoi(acs.Index)
+		if !found || i < index {
+			acsUrl = acs.Location
+			protocolBinding = acs.Binding
+			index = i
+			found = true
 		}
 	}
 
 	return acsUrl, protocolBinding
+}
+
+// isXSBooleanTrue reports whether value is a lexical form of the xs:boolean value true.
+func isXSBooleanTrue(value string) bool {
+	return value == "true" || value == "1"
 }
